@@ -432,6 +432,7 @@ pub fn build_catalogue() -> Vec<Subject> {
         // tuples led by a collection (DecodeLength delegates to the first member)
         (Vec<u32>, u8) [mem, len]; (BTreeMap<u8, u8>,) [mem, len]; (VecDeque<u16>, String, u8) [mem, len]; (LinkedList<u16>, u8) [mem, len]; (BTreeSet<u16>, Vec<u8>) [mem, len]; (BinaryHeap<u32>, bool) [mem, len]; (Vec<()>, u32) [mem, len];
         // more shapes
+        Vec<[u16; 0]> [mem, len]; Vec<[bool; 0]> [mem, len]; VecDeque<[[u32; 4]; 0]> [mem, len]; BTreeSet<[u8; 0]> [mem, len]; LinkedList<[u64; 0]> [mem, len, empty_alloc]; Option<[u16; 0]> [mem]; Vec<(u8, [u16; 0])> [mem, len];
         Cow<'static, [u32]>; Arc<String> [mem]; Option<NonZeroU32> [mem]; Vec<NonZeroU8> [mem, len]; BTreeSet<(u8, u8)> [mem, len]; BTreeMap<String, BTreeMap<u8, u8>> [mem, len];
         LinkedList<LinkedList<u8>> [mem, len]; VecDeque<VecDeque<u16>> [mem, len]; BinaryHeap<(u8, u8)> [mem, len]; BinaryHeap<Vec<u8>> [mem, len]; Vec<Compact<u8>> [mem, len]; Result<(), ()> [mem]; Option<()> [mem]; Option<Vec<()>> [mem];
         [[u8; 0]; 3] [mem]; [u8; 1] [mem]; [u16; 1] [mem]; Box<[u8; 0]> [mem]; [f32; 5] [mem]; [i8; 6] [mem]; [u64; 2] [mem]; [i128; 2] [mem]; GenericS<EnumData> [mem]; Vec<GenericE<u32>> [mem, len]; Vec<WithCompact> [mem, len]; Vec<WithSkip> [mem, len]; BTreeMap<u8, Tr4> [mem, len];
